@@ -20,7 +20,7 @@ PROP = "C01"
 MANIFEST = dict(
     level="exploration", design_ref="DESIGN.md 8 (C01), 7 (Surface), 10",
     technique="TLA+ environment grammar of the public API (TLC simulation generates call histories with boundary arguments) executed on the real library under run-time monitors; TLC trace validation of every callback record against P_C01; the modelled panic/hang sources are model-checked in Arena/Mixer/StaticSound",
-    text="TLC generates configurations and call histories over a boundary alphabet for every builder and handle call the harness interprets (static and streaming sounds, tracks with each of the eight effects, send and spatial tracks, listeners, clocks, tweener and LFO modulators, modulator links, every handle command, drops, sample-rate changes) interleaved with callbacks of 0-64 frames, plus two directed products (every effect x level x buffer size x device-rate change; every channel count x volume x panning of a loud sound); each callback's panic flag, allocation counters, sample scan, extra-channel scan, mono/stereo comparison and watchdog result is validated by TLC. 'Every finite argument' is reached only through this alphabet; NaN propagation inside DSP recursions is observed, not modelled.",
+    text="TLC generates configurations and call histories over a boundary alphabet for every builder and handle call the harness interprets (static and streaming sounds, tracks with each of the eight effects, send and spatial tracks, listeners, clocks, tweener and LFO modulators, modulator links, every handle command, drops, sample-rate changes) interleaved with callbacks of 0-64 frames, plus three directed products (every effect - including delays with an effect in their feedback loop - x level x buffer size x device-rate change; every handle command x argument level x tween length on an object with audio running; every channel count x volume x panning of a loud sound); each callback's panic flag, allocation counters, sample scan, extra-channel scan, mono/stereo comparison and watchdog result is validated by TLC. 'Every finite argument' is reached only through this alphabet; NaN propagation inside DSP recursions is observed, not modelled.",
     note="Exploration level: the input space is sampled by TLC simulation, not exhausted. Allocation counting uses a counting global allocator armed only on the thread and for the duration of the callback (probe bookkeeping excluded). The mono/extra-channel check compares against a stereo shadow session and is skipped when a streaming sound's free-running decoder makes output timing-dependent. Panics in gameplay-side calls are recorded but not judged (the property is about the callback).")
 
 
@@ -38,7 +38,7 @@ def grid():
     B. every channel count x volume x panning of one loud two-channel sound (mix-down, clamping, extra channels)."""
     out = []
     snd = lambda vol, pan, tgt: {"act": "add_static", "p": [4, 0, 0, 0, 2, vol, pan, 0, 0, 0, tgt]}
-    for k in range(1, 9):
+    for k in list(range(1, 9)) + [9, 10, 11]:
         for l in range(6):
             for buf in (0, 3):
                 for r0 in range(3):
@@ -48,6 +48,22 @@ def grid():
                         out.append({"cfg": {"buf": buf, "rate": r0, "ch": 2, "cap": 2}, "src": "grid-effect-rate", "steps": [
                             {"act": "add_track", "p": [k, l, 2, 0, 0, 0, 0]}, snd(2, 1, 1), {"act": "cb", "p": [3]}, {"act": "cb", "p": [2]},
                             {"act": "rate", "p": [r1]}, {"act": "cb", "p": [3]}, {"act": "cb", "p": [1]}, {"act": "cb", "p": [3]}]})
+    # C. every handle command x every level of its argument alphabet x two tween lengths, on an object through which audio is
+    #    running (the random walk issues most commands to objects that are silent, finished or not yet picked up)
+    def cmds(prelude, act, nc, nl):
+        for c in range(nc):
+            for l in range(nl):
+                for d in (0, 2):
+                    out.append({"cfg": {"buf": 2, "rate": 1, "ch": 2, "cap": 2}, "src": "grid-command", "steps": prelude + [
+                        {"act": "cb", "p": [3]}, {"act": act, "p": [l, d] if act == "fx_cmd" else [c, l, d]}, {"act": "cb", "p": [3]}, {"act": "cb", "p": [2]}, {"act": "cb", "p": [3]}]})
+    looped = {"act": "add_static", "p": [4, 0, 1, 0, 2, 2, 1, 0, 0, 0, 0]}
+    cmds([snd(2, 1, 0)], "snd_cmd", 10, 6)
+    cmds([looped], "snd_cmd", 10, 6)
+    cmds([{"act": "add_stream", "p": [3, 1, 0, 0, 0, 2, 2, 1]}], "str_cmd", 10, 6)
+    cmds([{"act": "add_track", "p": [0, 0, 2, 0, 0, 0, 0]}, snd(2, 1, 1)], "trk_cmd", 5, 6)
+    cmds([{"act": "add_clock", "p": [1]}, {"act": "clk_cmd", "p": [0, 0, 0]}], "clk_cmd", 4, 4)
+    for k in range(1, 9):
+        cmds([{"act": "add_track", "p": [k, 1, 2, 0, 0, 0, 0]}, snd(2, 1, 1)], "fx_cmd", 1, 12)
     for ch in range(8):
         for vol in (1, 2, 3, 5):
             for pan in range(5):
